@@ -3,7 +3,7 @@ from . import kernels as K, C01
 
 PROPERTY = "C08"
 META = {
-    "bounds": {"quick": "12 detrending functions (3 backends x auto/csd x detrend0/poly) + 6 window-only ones; L in 1..5 (L<=p included), K<=2, N=L+2; symbolic data, window, omega and trend coefficients (per channel, on absolute sample indices)",
+    "bounds": {"quick": "call history: the same obligations after a basis of the other order was built for the same L (L=3,4); 12 detrending functions (3 backends x auto/csd x detrend0/poly) + 6 window-only ones; L in 1..5 (L<=p included), K<=2, N=L+2; symbolic data, window, omega and trend coefficients (per channel, on absolute sample indices)",
                "thorough": "L in 1..8, K<=3"},
     "outside": ["'up to rounding relative to the size of the added trend' (reals are exact here; the double-precision Q is cross-checked against the exact basis to 1e-12 concretely)"],
     "stubs": C01.META["stubs"],
@@ -20,7 +20,7 @@ def _poly(W, name, deg, N):
     return a, [sum(a[k] * (n ** k) for k in range(deg + 1)) for n in range(N)]
 
 
-def ob_invariance(W, backend, fam, mode, L, starts, order, N):
+def ob_invariance(W, backend, fam, mode, L, starts, order, N, prior_q=None):
     """adding a polynomial of degree <= order to either channel leaves all five statistics unchanged"""
     import numpy as rnp
     x = W.reals("x", N)
@@ -34,7 +34,7 @@ def ob_invariance(W, backend, fam, mode, L, starts, order, N):
         y2 = y + _arr(W, ty)
     else:
         y2 = x2
-    base = K.run(W, backend, fam, mode, x, y, starts, L, w, om, order)
+    base = K.run(W, backend, fam, mode, x, y, starts, L, w, om, order, prior_q=prior_q)
     got = K.run(W, backend, fam, mode, x2, y2, starts, L, w, om, order)
     for nm, g, r in zip(K.STAT_NAMES, got, base):
         W.goal("invariant/" + nm, W.eq(g, r))
@@ -94,6 +94,10 @@ def obligations(tier):
                         tag = "%s/%s_%s/o%d/L%d/s%s" % (backend, fam, mode, order, L, "-".join(map(str, st)))
                         p = dict(backend=backend, fam=fam, mode=mode, L=L, starts=st, order=order, N=N)
                         obs.append({"name": "inv/" + tag, "fn": "ob_invariance", "params": p, "weight": L * L * len(st)})
+                    if order in (1, 2) and L in (3, 4):
+                        # call history: a basis of the OTHER order was built for the same segment length before (process-wide state must not leak)
+                        p = dict(backend=backend, fam=fam, mode=mode, L=L, starts=[1], order=order, N=N, prior_q=3 - order)
+                        obs.append({"name": "inv-after-other-order/%s/%s_%s/o%d/L%d" % (backend, fam, mode, order, L), "fn": "ob_invariance", "params": p, "weight": L * L})
                     if L >= order + 3 and L <= 5:
                         for ch in (("x", "y") if mode == "csd" else ("x",)):
                             obs.append({"name": "sens/%s/%s_%s/o%d/L%d/%s" % (backend, fam, mode, order, L, ch), "fn": "ob_sensitivity",
